@@ -87,7 +87,27 @@ func (f c10Fault) String() string {
 
 var c10Statuses = []uint16{0x01, 0x02, 0x03, 0x04, 0x05, 0x06, 0x20, 0x81, 0x82, 0x83, 0x84, 0x85, 0x86}
 
-func lyingStatus(s uint16) bool { return s == 0x01 || s == 0x02 || s == 0x05 }
+// lyingStatus: the injected status is one the backend opcode it hit legitimately
+// answers with when the key is absent (or present, for add) -- injected without
+// processing, the backend then "lies" about its contents, and what the
+// orchestrator does with a believable answer is not judged for staleness.
+// Any other status is a refusal and must be treated as one.
+func lyingStatus(op byte, s uint16, chunkedTier bool) bool {
+	if chunkedTier {
+		// one handler call is many backend requests there, and the handler turns
+		// 0x01/0x02/0x05 on any of them into the believable miss/exists answer of the call
+		return s == 0x01 || s == 0x02 || s == 0x05
+	}
+	switch op {
+	case fakemc.OpAdd, fakemc.OpAddQ:
+		return s == 0x02
+	case fakemc.OpAppend, fakemc.OpPrepend, 0x19, 0x1a:
+		return s == 0x01 || s == 0x05
+	case fakemc.OpSet, fakemc.OpSetQ:
+		return false
+	}
+	return s == 0x01
+}
 
 func c10FaultKinds() []c10Fault {
 	var out []c10Fault
@@ -297,6 +317,7 @@ func runC10(c c10Case) (res c10Result) {
 	}
 	// arm
 	var target *fakemc.Server
+	faultedOp := byte(0xff) // opcode of the backend request the fault hit
 	if c.Fault != nil {
 		count := 0
 		conn := connL1
@@ -313,6 +334,9 @@ func runC10(c c10Case) (res c10Result) {
 				return false
 			}
 			count++
+			if count-1 == want {
+				faultedOp = r.Opcode
+			}
 			return count-1 == want
 		}
 		target.Arm(ff)
@@ -351,7 +375,7 @@ func runC10(c c10Case) (res c10Result) {
 		}
 		// any value returned must be one the model allows for that key (clause d;
 		// not judged when the injected fault is a lying backend status)
-		lying := c.Fault != nil && c.Fault.Kind == "status" && lyingStatus(c.Fault.Status)
+		lying := c.Fault != nil && c.Fault.Kind == "status" && lyingStatus(faultedOp, c.Fault.Status, c.Fault.Tier == "L1" && st.Cfg.L1 == "chunked")
 		for _, h := range o.Hits {
 			if lying && (fired || firedAfter) {
 				break
@@ -392,7 +416,7 @@ func runC10(c c10Case) (res c10Result) {
 		return fail("b", "bystander connection after the fault: %v %s", err, o)
 	}
 	// (d) a fresh fault-free connection reads every key
-	if c.Fault == nil || !(c.Fault.Kind == "status" && lyingStatus(c.Fault.Status)) {
+	if c.Fault == nil || !(c.Fault.Kind == "status" && lyingStatus(faultedOp, c.Fault.Status, c.Fault.Tier == "L1" && st.Cfg.L1 == "chunked")) {
 		fresh := wire.NewClient(st.Dial(0), true)
 		defer fresh.Close()
 		for _, k := range []string{"hot", "cold", "none"} {
